@@ -613,15 +613,51 @@ class _Step:
         return out
 
 
-def _returns_err(stmts):
-    from lib.facts import walk, render, is_node
-    for s2 in stmts:
-        for n in walk(s2):
-            if n[0] == "ret" and n[1] is not None and render(n[1]).startswith("Err("):
-                return True
-    if stmts and stmts[-1][0] == "expr" and is_node(stmts[-1][1]) and render(stmts[-1][1]).startswith("Err(") and not stmts[-1][2]:
-        return True
-    return False
+def _ends_in_err(stmts):
+    """the block leaves the function with an error: its last statement is `return Err(..)` / a tail `Err(..)` / `Err(..)?`"""
+    from lib.facts import render, is_node
+    if not stmts:
+        return False
+    last = stmts[-1]
+    e = last[1] if last[0] == "expr" and is_node(last[1]) else None
+    if e is None:
+        return False
+    if e[0] == "ret":
+        return e[1] is not None and render(e[1]).startswith("Err(")
+    if e[0] == "try":
+        return render(e[1]).startswith("Err(")
+    return render(e).startswith("Err(") and not last[2]
+
+
+def _block_stmts(e):
+    from lib.facts import is_node
+    if is_node(e) and e[0] in ("block", "unsafe"):
+        return e[1]
+    return [["expr", e, False]]
+
+
+def _linear(stmts):
+    """guard clauses and nested ifs are the same thing: `if c { A } else { return Err }` == `if !c { return Err } A` and
+    `if c { return Err } else { B }` == `if c { return Err } B`; plain nested blocks are spliced in"""
+    from lib.facts import is_node
+    out = []
+    for st in stmts:
+        e = st[1] if st[0] == "expr" and is_node(st[1]) else None
+        if e is not None and e[0] == "if" and e[3] is not None:
+            els = _block_stmts(e[3])
+            if _ends_in_err(els) and not _ends_in_err(e[2]):
+                out.append(["expr", ["if", ["un", "!", ["paren", e[1]]], els, None], False])
+                out.extend(_linear(e[2]))
+                continue
+            if _ends_in_err(e[2]) and not _ends_in_err(els):
+                out.append(["expr", ["if", e[1], e[2], None], False])
+                out.extend(_linear(els))
+                continue
+        if e is not None and e[0] in ("block", "unsafe"):
+            out.extend(_linear(e[1]))
+            continue
+        out.append(st)
+    return out
 
 
 def _scan(step, stmts, stop=None):
@@ -629,7 +665,7 @@ def _scan(step, stmts, stop=None):
     statement that contains node `stop` (returns True then)"""
     from lib.facts import walk, render, is_node
     guards = []
-    for st in stmts:
+    for st in _linear(stmts):
         if stop is not None and any(x is stop for x in walk(st)):
             if st[0] == "let" or st[0] == "expr":
                 # bytes read by the scrutinee of the match itself (`match OpCode::from_u8(cur.read_u8()?)`)
@@ -649,7 +685,7 @@ def _scan(step, stmts, stop=None):
                 step.consumed += step.reads_in(st[2])
         elif st[0] == "expr" and is_node(st[1]):
             e = st[1]
-            if e[0] == "if" and e[3] is None and _returns_err(e[2]):
+            if e[0] == "if" and e[3] is None and _ends_in_err(e[2]):
                 for need, k in step.required(e[1]):
                     guards.append((need, k, render(e[1])))
             step.consumed += step.reads_in(e)
@@ -756,7 +792,7 @@ def run_r5(F, rep, crate, cg, consts=None):
     for op, a in sorted(arms.items()):
         arm_step = step.copy()
         stm = a[2][1] if is_node(a[2]) and a[2][0] == "block" else [["expr", a[2], False]]
-        fixed = sum(arm_step.copy().reads_in(s_) for s_ in stm)
+        fixed = sum(arm_step.copy().reads_in(s_) for s_ in _linear(stm))
         has_loop = any(x[0] in ("for", "while", "loop") for x in walk(a[2]))
         size = base + fixed
         arm_guards, _ = _scan(arm_step, stm)
